@@ -137,12 +137,24 @@ fn session<C: Suite>(ctx: &mut Ctx, n: u16, t: u16, kind: &str, source: &str, cl
     let mut rands: BTreeMap<Identifier<C>, (Vec<u8>, Vec<u8>)> = BTreeMap::new();
     for id in &signers {
         let mut r = TraceRng::from_parts(&[b"c02", &ctx.seed.to_le_bytes(), &ctx.cur_item.to_le_bytes(), &id.serialize()]);
-        let (nn, cc) = C::api_commit(grp.kps[id].signing_share(), &mut r);
-        if r.stream.len() != 64 {
-            ctx.viol("bit-exact", "randomness-consumed", json!({"bytes": r.stream.len()}));
+        // every third class takes its nonces from a pre-processed batch (the last pair of k = 2 or 3) instead of commit()
+        let kpre = if cls % 3 == 0 { 1 } else { 1 + cls % 3 };
+        let (nn, cc) = if kpre == 1 {
+            C::api_commit(grp.kps[id].signing_share(), &mut r)
+        } else {
+            let (mut ns, mut cs) = frost_core::round1::preprocess::<C, _>(kpre as u8, grp.kps[id].signing_share(), &mut r);
+            match (ns.pop(), cs.pop()) {
+                (Some(a), Some(b)) => (a, b),
+                _ => return ctx.viol("bit-exact", "preprocess-count", json!({"k": kpre})),
+            }
+        };
+        if r.stream.len() != 64 * kpre {
+            ctx.viol("bit-exact", "randomness-consumed", json!({"bytes": r.stream.len(), "pairs": kpre}));
             return;
         }
-        rands.insert(*id, (r.stream[..32].to_vec(), r.stream[32..].to_vec()));
+        let off = 64 * (kpre - 1);
+        ctx.count(if kpre == 1 { "nonces_from_commit" } else { "nonces_from_preprocess" });
+        rands.insert(*id, (r.stream[off..off + 32].to_vec(), r.stream[off + 32..off + 64].to_vec()));
         nonces.insert(*id, nn);
         comms.insert(*id, cc);
     }
